@@ -192,9 +192,11 @@ def _get_or_create_semaphore(
                     return GLOBAL_RETRY_SEMAPHORES[fallback_key]
     else:
         with GLOBAL_RETRY_SEMAPHORE_LOCK:
-            if sem_key not in GLOBAL_RETRY_SEMAPHORES:
-                GLOBAL_RETRY_SEMAPHORES[sem_key] = asyncio.Semaphore(semaphore_limit)
-            return GLOBAL_RETRY_SEMAPHORES[sem_key]
+            semaphore = GLOBAL_RETRY_SEMAPHORES.get(sem_key)
+            # an asyncio.Semaphore stays bound to the event loop it was first contended on: replace it when that loop is gone
+            if semaphore is None or getattr(semaphore, '_loop', None) not in (None, asyncio.get_running_loop()):
+                semaphore = GLOBAL_RETRY_SEMAPHORES[sem_key] = asyncio.Semaphore(semaphore_limit)
+            return semaphore
 
 
 def _calculate_semaphore_timeout(
